@@ -34,6 +34,15 @@ CLAIMS = {
          "shapes and int/float/complex dtype; null_space/orth through rank facts; recorded batches of larger random matrices are "
          "validated by TLC.",
     design="5/C20", technique="TLC enumeration + certified exact oracle, replay on both sides of the batch thresholds, TLC trace validation"),
+ "C05": dict(
+    text="Diagram.tla is a state machine transcribed from TensorDiagram (_nodes/_unused_indices/_contraction_list, add_node, "
+         "add_edge with the code's order of effects, calculate); TLC explores every history over every assignment of index-type "
+         "patterns to the tensor objects, certifies the bookkeeping against the declarative pairing/Einstein sum, and every "
+         "complete history is replayed on real tensors (stepwise, constructor, __mul__/__rmul__/__pow__/tensor_product) with "
+         "exact integer comparison; recorded executions of real diagrams (private state logged after every call) are validated "
+         "action by action; EpsDelta.tla gives every entry of eps(n), n<=6, and delta(n,p) from the definitions, compared under "
+         "adversarial construction orders of the caches.",
+    design="5/C05", technique="TLC state-graph exploration of the diagram state machine + replay + state-logging trace validation"),
 }
 
 checks = []
